@@ -5,7 +5,7 @@ CLAIM = ("isPowerOfTwo, next/prev/ceil/floor/roundPowerOfTwo, isMultiple, next/p
          "integer-quotient remainder), findNSB, mask, bitfieldFill*, bitfieldRotate*, bitfieldInterleave/Deinterleave (all overloads), gtc log2, gtx pow/sqrt/mod/factorial/nlz and gtx/bit helpers are executed "
          "symbolically from their clang IR at 8/16/32/64 bit and the solver shows the result is the documented integer for every argument in the stated domain.")
 BOUNDS = ('values unbounded (full machine width) except: gtx sqrt(x) for x < 2^8 (quick) / 2^10 (thorough) (Newton loop, unwind 12) and for x in the 64-wide bands starting at 2^31, 2^32-64, 65535^2-32 (uint) and 2^31-64, 46340^2-32 (int) (unwind 40), gtx pow exponent <= 8 (unwind 9), factorial n <= 12, highestBitValue loops unwind width+1, findNSB unwind 8; '
-          'power-of-two family on x > 0 with representable result; multiples with m > 0 and representable result; float multiples: rounding-erased, m in a constant set')
+          'power-of-two family on x > 0 with representable result (roundPowerOfTwo: the NEAREST power representable, i.e. x < 1.5 * 2^(w-1) resp. 2^(w-2) signed); multiples with m > 0 and representable result; float multiples: rounding-erased, m in a constant set')
 OUTSIDE = 'negative arguments of the power-of-two family (no documented meaning); rounding of float multiples; sqrt/pow beyond the stated ranges'
 ASSUMPTIONS = ['urem/srem kernels are decided by cvc5 --solve-bv-as-int=sum (z3 bit-blasting does not finish beyond 8 bit)']
 
